@@ -6,7 +6,9 @@ ID=$1; shift
 D=seeded/$ID
 PROPS="$@"; [ -z "$PROPS" ] && PROPS=$(python3 -c "import json;print(json.load(open('$D/meta.json'))['property'])")
 git -C /repo apply $PWD/$D/patch.diff || { echo "patch does not apply"; exit 2; }
-trap 'git -C /repo checkout -- . >/dev/null 2>&1' EXIT
+SAVE=$(mktemp -d); cp evidence/*.json $SAVE/ 2>/dev/null
+# evidence files describe the unchanged tree: whatever the seeded run writes is put back afterwards
+trap 'git -C /repo checkout -- . >/dev/null 2>&1; cp $SAVE/*.json evidence/ 2>/dev/null; rm -rf $SAVE' EXIT
 : > $D/result.txt
 for P in $PROPS; do
   out=$(./check $P 2>&1); rc=$?
